@@ -68,6 +68,9 @@ func CheckStdout(e *Expect, got []byte) *Mismatch {
 	var pos [NProd][]int32
 	for i, b := range got {
 		p := ProducerOf(b)
+		if bytes.IndexByte([]byte(e.ProgExtra), b) >= 0 {
+			p = ProdProg // CSV/TSV separator, quote, leading space; "\r" of CRLF newline mode
+		}
 		if p < 0 {
 			return &Mismatch{What: "foreign-byte", Detail: fmt.Sprintf("byte %q at offset %d of stdout belongs to no producer", b, i), Observed: around(got, i)}
 		}
@@ -139,4 +142,19 @@ func CheckSnap(s SnapExpect, content []byte, exists bool) string {
 		}
 	}
 	return ""
+}
+
+// CheckStderr compares the marked lines found in the error stream (goawk's own messages are
+// whole lines without the marker) with what the program wrote to "/dev/stderr".
+func CheckStderr(e *Expect, stderr []byte) string {
+	var got []byte
+	for _, l := range bytes.SplitAfter(stderr, []byte("\n")) {
+		if bytes.HasPrefix(l, []byte(StderrMark)) {
+			got = append(got, l...)
+		}
+	}
+	if bytes.Equal(got, e.Stderr) {
+		return ""
+	}
+	return "lines written to /dev/stderr: " + DiffBytes(e.Stderr, got)
 }
